@@ -173,10 +173,29 @@ ADDED = {
 }
 
 
+ADDED2 = {
+    'C05': ' Values built by the compile-time macros are covered through the macro witnesses of C16 (cached per tree).',
+    'C06': ' Manifest feature wiring (the likelysubtags feature of every crate reaches unic-langid-impl/likelysubtags); subtag validators; macro witnesses.',
+    'C07': ' Subtag validators and the empty-language API (the lookups key on "und" = None); both method wrappers.',
+    'C08': ' Subtag validators and the empty-language API; the maximize method wrapper as well as the minimize one.',
+    'C10': ' Who-may-write: every function with &mut access to a value type (trait impls, free functions) re-establishes the invariants, nobody hands mutable access to an ordered collection out, a mutator without effect specification stores only validated text, searches use the order the lists are kept in, has_variant looks exactly its argument up.',
+    'C11': ' Dispatcher and private-use parser tables; macro witnesses.',
+    'C12': ' Macro witnesses.',
+    'C13': ' Macro witnesses (locale! builds the id the parser builds).',
+    'C14': ' Manifest feature wiring; subtag validators.',
+    'C15': ' A subtag value is constructed only inside its validator, an unsafe unchecked constructor, derive output or as the empty language (PROV-CTOR); macro witnesses.',
+    'C17': ' Macro witnesses.',
+    'C19': ' Manifest feature wiring (serde).',
+    'C20': ' Manifest feature wiring; macros-only pairs in the quick tier.',
+}
+for _k, _v in ADDED2.items():
+    ADDED[_k] = ADDED.get(_k, '') + _v
+
+
 def main():
     for k, extra in ADDED.items():
         if extra.strip() not in CHECKS[k]['text']:
-            CHECKS[k]['text'] = CHECKS[k]['text'].rstrip() + extra
+            CHECKS[k]['text'] = CHECKS[k]['text'].rstrip() + ' ' + extra.strip()
     props = [json.loads(l) for l in open(os.path.join(HERE, 'properties.jsonl'))]
     checks = []
     for p in props:
